@@ -43,7 +43,10 @@ LEVEL_NOTE = ("Theorems are about the Gallina model (Lang/LocModel.v, Exec/Respo
               "entry-point configurations on every run, and the Coq wf_response/null_error_match checkers "
               "(proved to decide the Spec) are evaluated on the implementation's real responses.")
 RULE = ("requests over two fixed schemas (objects, lists, non-null, enum, input objects; interface/union) with "
-        "resolvers failing on demand (ResolverError with/without extensions and with empty message, null in "
+        "resolvers failing on demand (a family of error classes: ResolverError with/without extensions and with "
+        "empty message, a module-level instance raised by several fields, subclasses with one-argument, multi-positional "
+        "and keyword-only constructors computing message/extensions, a subclass exposing extensions as a property; at root "
+        "fields, nested fields and below list items; null in "
         "non-null positions, null list items, non-finite floats): generated valid operations (aliases, inline and "
         "named fragments, @skip/@include, mutations), every prefix of 7 seed documents, character and "
         "identifier mutants, hand-written schema-invalid documents, failing variable payloads, unknown operation "
@@ -365,7 +368,7 @@ def run_impl(case):
         except Exception:  # noqa
             pass
     stages, doc, op = _stage_verdicts(schema, case)
-    ctx = {"world": case["world"], "raised": [], "floats": []}
+    ctx = {"world": case["world"], "raised": [], "floats": [], "raised_ext": []}
     obs = {"stages": stages}
     try:
         result = _run_entry(schema, case, ctx)
@@ -375,6 +378,7 @@ def run_impl(case):
         return obs
     obs["floats"] = encode_floats(ctx["floats"])
     obs["raised_paths"] = ctx["raised"]
+    obs["raised_ext"] = encode_floats(ctx["raised_ext"])
     try:
         resp = result.response()
     except Exception as e:  # noqa
@@ -520,6 +524,15 @@ def direct_checks(case, obs):
         return out
     if _has_columne(obs):
         out.append(("syntax-error location spells the column key 'columne'", "columne-key"))
+    if obs.get("kind") == "raised" and obs.get("cls") != "RuntimeError":
+        out.append(("an exception escaped the entry point instead of a response: %s" % obs.get("cls"), None))
+    # extensions as the raised error object exposed them (attribute or property), per raising position
+    if obs.get("kind") == "response":
+        errs = [e for e in (obs["resp"].get("errors") or []) if isinstance(e, dict)]
+        for path, ext, cls in obs.get("raised_ext", []):
+            for e in errs:
+                if e.get("path") == path and e.get("extensions") != ext:
+                    out.append(("extensions of the %s raised at %s are not passed through" % (cls, path), None))
     for e in obs.get("result_errors", []):
         if e["fam"] == "other":
             out.append(("result carries an error outside the response error families: %s" % e["type"], None))
